@@ -135,6 +135,12 @@ fn c14_smh_method_f64_m4() {
 }
 #[kani::proof]
 #[kani::stub(std::backtrace::Backtrace::capture, crate::verif_common::no_backtrace)]
+#[kani::unwind(8)]
+fn c14_smh_method_f64_m5() {
+    c14_method::<f64, 5>();
+}
+#[kani::proof]
+#[kani::stub(std::backtrace::Backtrace::capture, crate::verif_common::no_backtrace)]
 #[kani::unwind(6)]
 fn c14_smh_method_f32_m3() {
     c14_method::<f32, 3>();
